@@ -121,8 +121,9 @@ class IC(object):
                 XX[idx[u], idx[v]] = self.X0[idx[u]] * self.X0[idx[v]]
         return XY, XX
 
-    def Pk(self):
-        return {k: self.Nk[k] / self.N for k in range(self.maxk + 1) if self.Nk[k] > 0}
+    def Pk(self, dense=False):
+        # dense: an entry for every degree 0..kmax, unobserved degrees with probability 0.0 (the other common way to write the dict)
+        return {k: self.Nk[k] / self.N for k in range(self.maxk + 1) if self.Nk[k] > 0 or dense}
 
     def by_Ks(self, arr):
         return np.array([arr[k] for k in self.Ks])
@@ -397,7 +398,7 @@ def entries():
         psi, psiP = psi_plain(ic)
         return [ic.N, psi, psiP, c['tau'], c['gamma'], c['rho']], {}
     A(Entry('EBCM_uniform_introduction', 'SIR', 'direct', ['rho'], _direct('EBCM_uniform_introduction', ebcm_ui_args), {'theta': 4}))
-    A(Entry('EBCM_pref_mix', 'SIR', 'direct', ['rho'], _direct('EBCM_pref_mix', lambda c, ic: ([ic.N, ic.Pk(), Pnk_of(ic, c.get('pnk_defaultdict')), c['tau'], c['gamma']], {'rho': c['rho']})), {}))
+    A(Entry('EBCM_pref_mix', 'SIR', 'direct', ['rho'], _direct('EBCM_pref_mix', lambda c, ic: ([ic.N, ic.Pk(c.get('dense_Pk')), Pnk_of(ic, c.get('pnk_defaultdict')), c['tau'], c['gamma']], {'rho': c['rho']})), {}))
 
     def ebcm_d_args(c, ic, G):
         ph, php, _ = psi_fns(ic)
@@ -409,7 +410,7 @@ def entries():
         return [ic.N, psi, psiP, c['p'], c['rho']], {'tmax': c['dtmax'] - c['dtmin']}
     A(Entry('EBCM_discrete_uniform_introduction', 'SIR', 'direct', ['rho'], _discrete('EBCM_discrete_uniform_introduction', ebcm_dui_args), {'theta': 4}, discrete='tmin0'))
     A(Entry('EBCM_pref_mix_discrete', 'SIR', 'direct', ['rho'], _discrete('EBCM_pref_mix_discrete',
-            lambda c, ic, G: ([ic.N, ic.Pk(), Pnk_of(ic, c.get('pnk_defaultdict')), c['p']], {'rho': c['rho'], 'tmin': c['dtmin'], 'tmax': c['dtmax']})), {}, discrete=True))
+            lambda c, ic, G: ([ic.N, ic.Pk(c.get('dense_Pk')), Pnk_of(ic, c.get('pnk_defaultdict')), c['p']], {'rho': c['rho'], 'tmin': c['dtmin'], 'tmax': c['dtmax']})), {}, discrete=True))
     return E
 
 
@@ -453,7 +454,7 @@ def expected_aux(ic, key):
 
 @st.composite
 def analytic_case(draw, names=None, nmax=12, need_edge=True, modes=('rho', 'sets'), labels=('int', 'perm', 'str', 'tuple'),
-                  rates=None, family=None, depletion_cap=3.0, selfloops=False, weights=False):
+                  rates=None, family=None, depletion_cap=3.0, selfloops=False, weights=False, dense=False):
     name = draw(st.sampled_from(sorted(names or ENTRIES)))
     e = ENTRIES[name]
     n_hi = min(nmax, e.nmax)
@@ -507,6 +508,8 @@ def analytic_case(draw, names=None, nmax=12, need_edge=True, modes=('rho', 'sets
         case['tmax'] = case['tmin'] + (case['tmax'] - case['tmin']) / 2.0       # hazards up to twice as large
     if name in ('EBCM_pref_mix', 'EBCM_pref_mix_discrete'):
         case['pnk_defaultdict'] = draw(st.booleans())
+        if dense:
+            case['dense_Pk'] = draw(st.booleans())
     if ('individual_based' in name or 'pair_based' in name) and '[' not in name and draw(st.booleans()):
         case['nodelist_perm'] = list(draw(st.permutations(list(range(len(gc['nodes']))))))    # explicit nodelist, caller's order
     return case
